@@ -102,6 +102,11 @@ Inductive case :=
 (* user table through cpl.CTRBLRule: items of the dict, add_rotations, the observed rule_table, and the
    answers on all keys of {0..ns-1}^5 *)
 | CUser (items : table) (add_rot : bool) (ns : nat) (obs_table : table) (packed : list N)
+(* no aliasing: as CUser, but the caller's dict was EDITED after the rule had been constructed (`edits`: (key, new
+   image), image -1 = the key was deleted) and only then the rule was queried and its rule_table read. The rule
+   must still answer with the table it was constructed with: the model ignores `edits` (a functional model has no
+   "later"; the content of this check is in the observation) *)
+| CAlias (items : table) (add_rot : bool) (ns : nat) (edits : table) (obs_table : table) (packed : list N)
 (* user table with arbitrary integer states and an explicit list of 3x3 blocks *)
 | CUserQ (items : table) (add_rot : bool) (obs_table : table) (queries : list (list (list Z) * res Z))
 (* replay of a witness of a failed finite theorem: the answers of the real __call__ on the key and its three
@@ -117,6 +122,7 @@ Definition model_codes (c : case) : list Z :=
   | CBlock w n _ => [loop_code w (key_of_nbhd n)]
   | CGrid w g _ => concat (grid_step_codes w g)
   | CUser items ar ns _ _ => map (ctrbl_code (ctrbl_new items ar)) (all_keys (states ns))
+  | CAlias items ar ns _ _ _ => map (ctrbl_code (ctrbl_new items ar)) (all_keys (states ns))
   | CUserQ items ar _ qs =>
       map (fun q => ctrbl_code (ctrbl_new items ar) (key_of_nbhd (fst q))) qs
   | CWitness w k _ => [loop_code w k; loop_code w (rot k); loop_code w (rot (rot k)); loop_code w (rot (rot (rot k)))]
@@ -162,6 +168,9 @@ Definition check_case (c : case) : bool :=
       (* a ValueError anywhere aborts the step: observed as [[9]] *)
       if existsb (existsb (Z.eqb 9)) m then zgrid_eqb obs [[9]] else zgrid_eqb m obs
   | CUser items ar ns obs_table packed =>
+      table_eqb (ctrbl_new items ar) obs_table &&
+      streams_ok (S (length packed)) (model_codes c) packed
+  | CAlias items ar ns _ obs_table packed =>
       table_eqb (ctrbl_new items ar) obs_table &&
       streams_ok (S (length packed)) (model_codes c) packed
   | CUserQ items ar obs_table qs =>
